@@ -58,8 +58,13 @@ def split_unit(h):
     segments after; with total = L1 + L2 > 0 the two shares add up to the segment's value."""
     gu.install(h)
     n, lats, lons, alts, times, state, integ = gu.make_path(h, False, False, 0, 1)
+    if h.choice(2) == 1:
+        # integrated quantities counted in whole units (an integer array): the shares of the crossing segment are fractions
+        integ = (SArr.symbolic(h.ctx, 'integrated0_whole_units', n - 1, sort=z3.IntSort()),)
+        h.ctx.named['integrated_values_are_integers'] = z3.BoolVal(True)
     dc, k, s = gu.one_crossing(h, n)
     g, *_ = gu.make_gridder(h, False, False)
+    attrs0 = dict(g.attrs)
     l1, l2 = h.real('first_part_length'), h.real('second_part_length')
     h.assume(z3.And(l1 >= 0, l2 >= 0, l1 + l2 > 0), 'part lengths as returned by _calculate_segment_lengths (total > 0)')
     tot = l1 + l2
@@ -75,6 +80,8 @@ def split_unit(h):
     h.ensure('values-after-the-crossing-go-to-the-second-part-unchanged', z3.Implies(j > k, to_real(iv2.at(j - k)) == to_real(v.at(j))))
     h.ensure('the-crossing-segments-value-is-split-without-loss', to_real(iv1.at(k)) + to_real(iv2.at(0)) == to_real(v.at(k)))
     h.ensure('each-share-is-proportional-to-its-parts-length', z3.And(to_real(iv1.at(k)) * tot == to_real(v.at(k)) * l1, to_real(iv2.at(0)) * tot == to_real(v.at(k)) * l2))
+    h.ensure('the-gridder-keeps-nothing-from-the-call', set(g.attrs) == set(attrs0) and all(g.attrs[a] is attrs0[a] for a in attrs0),
+             note='attributes added or replaced on the Gridder: ' + ', '.join(sorted(a for a in g.attrs if a not in attrs0 or g.attrs[a] is not attrs0[a])))
 
 
 @unit('C04', 'antimeridian.whole', [G + ':Gridder._grid_trajectory_with_dateline_crossing', G + ':Gridder._cell_idxs_and_variables_for_dateline_split_trajectory'],
